@@ -1,4 +1,5 @@
 import OpcuaVerif.Model.C06
+import OpcuaVerif.Lemmas.C06
 import OpcuaVerif.Generated.ConvertTable
 
 /-!
@@ -8,7 +9,8 @@ round to nearest and give no result exactly when the rounded value is out of ran
 Property theorems (model: `OpcuaVerif.Model.C06`, the code after the four `fix:` commits):
 
 * implicit, integer target   : `convert_int_preserves`, `convert_out_of_range_none`
-* implicit, float target     : `convert_int_to_float` (correctly rounded: exact when the integer has
+* implicit, float target     : `convert_int_to_float_nearest` (no value with ≤ 24/53 significant bits is
+                               nearer), `convert_int_to_float` (correctly rounded: exact when the integer has
                                at most 24/53 significant bits, otherwise on the grid of its binade,
                                within half a grid step, ties to even), `convert_float_source`
 * the table                  : `table_preserving` (every arm of `convert` is value preserving)
@@ -19,11 +21,6 @@ Property theorems (model: `OpcuaVerif.Model.C06`, the code after the four `fix:`
 namespace OpcuaVerif.C06
 
 /-! ### Implicit conversion between integer types -/
-
-theorem wrapTo_of_inRange (t : NT) (v : Int) (ht : t.isInt = true) (h : inRange t v) :
-    wrapTo t v = v := by
-  cases t <;> simp [NT.isInt, NT.isFloat] at ht <;>
-    simp only [wrapTo, inRange, NT.minV, NT.maxV, NT.modulus] at * <;> omega
 
 def Preserving (s d : NT) : CK → Bool
   | .none => true
@@ -163,123 +160,6 @@ theorem cast_int_spec (s d : NT) (x : Int) (hs : s.isInt = true) (hd : d.isInt =
 /-! ### Explicit cast, float source -/
 
 
-/-- reference rounding of the magnitude m·2^e to an integer: nearest, ties away from zero -/
-def nearestAwayNat (m : Nat) (e : Int) : Nat :=
-  if e ≥ 0 then m * 2 ^ e.toNat
-  else if 2 * (m % 2 ^ (-e).toNat) ≥ 2 ^ (-e).toNat then m / 2 ^ (-e).toNat + 1
-  else m / 2 ^ (-e).toNat
-
-/-- reference: the integer nearest to ±m·2^e, ties away from zero -/
-def nearestAway (neg : Bool) (m : Nat) (e : Int) : Int :=
-  if neg then -(nearestAwayNat m e : Int) else nearestAwayNat m e
-
-/-- an integer-valued float is its own nearest integer -/
-theorem nearestAwayNat_exact (m : Nat) (e : Int) (he : 0 ≤ e) :
-    nearestAwayNat m e = m * 2 ^ e.toNat := by
-  simp [nearestAwayNat, he]
-
-/-- `a = nearestAwayNat m e` is THE integer with `x − ½ < a ≤ x + ½` for `x = m / 2^k`
-(`k = −e > 0`), written without fractions: `2·a·2^k ≤ 2·m + 2^k` and `2·m < 2·a·2^k + 2^k`.
-So `|a − x| ≤ ½`, and an exact tie goes to the larger magnitude. -/
-theorem nearestAwayNat_nearest (m : Nat) (e : Int) (he : e < 0) :
-    2 * (nearestAwayNat m e * 2 ^ (-e).toNat) ≤ 2 * m + 2 ^ (-e).toNat ∧
-    2 * m < 2 * (nearestAwayNat m e * 2 ^ (-e).toNat) + 2 ^ (-e).toNat := by
-  generalize hP : 2 ^ (-e).toNat = P
-  have hpos : 0 < P := by rw [← hP]; exact Nat.pos_of_ne_zero (by simp)
-  have hdm := Nat.div_add_mod m P
-  have hlt := Nat.mod_lt m hpos
-  have hne : ¬ e ≥ 0 := by omega
-  simp only [nearestAwayNat, hne, if_false, hP]
-  split
-  · rw [Nat.add_mul, Nat.mul_comm (m / P) P]; omega
-  · rw [Nat.mul_comm (m / P) P]; omega
-
-/-- uniqueness: the two inequalities determine the integer -/
-theorem nearestAwayNat_unique (m P a b : Nat) (hP : 0 < P)
-    (ha : 2 * (a * P) ≤ 2 * m + P ∧ 2 * m < 2 * (a * P) + P)
-    (hb : 2 * (b * P) ≤ 2 * m + P ∧ 2 * m < 2 * (b * P) + P) : a = b := by
-  rcases Nat.lt_trichotomy a b with h | h | h
-  · have : (a + 1) * P ≤ b * P := Nat.mul_le_mul_right P h
-    rw [Nat.add_mul] at this; omega
-  · exact h
-  · have : (b + 1) * P ≤ a * P := Nat.mul_le_mul_right P h
-    rw [Nat.add_mul] at this; omega
-
-
-
-theorem flRound_fin (neg : Bool) (m : Nat) (e : Int) :
-    ∃ n e', flRound (.fin neg m e) = .fin neg n e' ∧ 0 ≤ e' ∧
-      truncInt neg n e' = nearestAway neg m e := by
-  by_cases he : e ≥ 0
-  · refine ⟨m, e, by simp [flRound, he], he, ?_⟩
-    simp [truncInt, nearestAway, nearestAwayNat, he]
-  · refine ⟨_, 0, by simp [flRound, he]; rfl, by omega, ?_⟩
-    simp only [truncInt, nearestAway, nearestAwayNat, he]
-    by_cases h2 : 2 * (m % 2 ^ (-e).toNat) ≥ 2 ^ (-e).toNat <;> simp [h2]
-
-theorem flNeg_aux (neg : Bool) (n a : Nat) (hz : a = 0 ↔ n = 0) :
-    (neg && n != 0) = decide ((if neg = true then -(a : Int) else (a : Int)) < 0) := by
-  cases neg
-  · simp
-  · by_cases hn : n = 0
-    · have : a = 0 := hz.mpr hn
-      simp [hn, this]
-    · have : a ≠ 0 := fun h => hn (hz.mp h)
-      have h1 : (n != 0) = true := by simp [hn]
-      have h2 : 0 < a := Nat.pos_of_ne_zero this
-      simp [h1, h2]
-
-theorem flNeg_fin (neg : Bool) (n : Nat) (e : Int) (he : 0 ≤ e) :
-    flNeg (.fin neg n e) = decide (truncInt neg n e < 0) := by
-  have hp : 0 < 2 ^ e.toNat := Nat.pos_of_ne_zero (by simp)
-  have hz : n * 2 ^ e.toNat = 0 ↔ n = 0 := by
-    constructor
-    · intro h
-      rcases Nat.mul_eq_zero.mp h with h | h
-      · exact h
-      · exact absurd h (Nat.ne_of_gt hp)
-    · intro h; simp [h]
-  have := flNeg_aux neg n _ hz
-  unfold flNeg truncInt
-  simp only [ge_iff_le, he, if_true]
-  exact this
-
-def clamp (lo hi t : Int) : Int := if t < lo then lo else if t > hi then hi else t
-
-theorem satCast_fin (lo hi : Int) (neg : Bool) (n : Nat) (e : Int) :
-    satCast lo hi (.fin neg n e) = clamp lo hi (truncInt neg n e) := rfl
-
-theorem clamp_ge_iff (lo hi b R : Int) (h1 : lo < b) (h2 : b ≤ hi) : clamp lo hi R ≥ b ↔ R ≥ b := by
-  unfold clamp; split <;> (try split) <;> omega
-
-theorem clamp_le_iff (lo hi b R : Int) (h1 : lo ≤ b) (h2 : b < hi) : clamp lo hi R ≤ b ↔ R ≤ b := by
-  unfold clamp; split <;> (try split) <;> omega
-
-theorem clamp_of_mem (lo hi R : Int) (h1 : lo ≤ R) (h2 : R ≤ hi) : clamp lo hi R = R := by
-  unfold clamp; split <;> (try split) <;> omega
-
-theorem castFloatToInt_aux (lo hi R : Int) (h1 : i128Min < lo) (h2 : lo ≤ 0) (h3 : 0 ≤ hi)
-    (h4 : hi < i128Max) (h5 : hi < u128Max) :
-    (if (if decide (R < 0) = true then lo ≠ 0 ∧ clamp i128Min i128Max R ≥ lo
-          else (!decide (R < 0)) = true ∧ clamp 0 u128Max R ≤ hi)
-      then some (Val.int (clamp lo hi R)) else none) =
-    if lo ≤ R ∧ R ≤ hi then some (.int R) else none := by
-  by_cases h0 : R < 0
-  · simp only [h0, decide_true, if_true]
-    simp only [clamp_ge_iff _ _ _ _ h1 (show lo ≤ i128Max by omega), ge_iff_le]
-    by_cases hr : lo ≤ R ∧ R ≤ hi
-    · rw [if_pos hr, if_pos ⟨by omega, by omega⟩, clamp_of_mem _ _ _ hr.1 hr.2]
-    · rw [if_neg hr, if_neg (by omega)]
-  · simp only [h0, decide_false, Bool.not_false, true_and, if_false, Bool.false_eq_true]
-    simp only [clamp_le_iff _ _ _ _ h3 h5]
-    by_cases hr : lo ≤ R ∧ R ≤ hi
-    · rw [if_pos hr, if_pos hr.2, clamp_of_mem _ _ _ hr.1 hr.2]
-    · rw [if_neg hr, if_neg (by omega)]
-
-theorem nt_bounds (d : NT) : i128Min < d.minV ∧ d.minV ≤ 0 ∧ 0 ≤ d.maxV ∧ d.maxV < i128Max ∧
-    d.maxV < u128Max := by
-  cases d <;> simp [NT.minV, NT.maxV, i128Min, i128Max, u128Max]
-
 /-- **Explicit float → integer cast** (the code path `vt = v.round()` + `cast_to_integer!`):
 a result exists exactly when the value is finite and its nearest integer (ties away from zero)
 is in the target's range, and then it is that integer. -/
@@ -310,112 +190,6 @@ theorem cast_float_spec (s d : NT) (x : Fl) (hs : s.isFloat = true) (hd : d.isIn
 
 
 /-! ### Implicit conversion integer → float -/
-
-
-theorem bitLen_bounds (m : Nat) (hm : m ≠ 0) : 2 ^ (bitLen m - 1) ≤ m ∧ m < 2 ^ bitLen m := by
-  unfold bitLen
-  simp only [hm, if_false]
-  exact ⟨by simpa using Nat.log2_self_le hm, Nat.lt_log2_self⟩
-
-theorem bitLen_pos (m : Nat) (hm : m ≠ 0) : 1 ≤ bitLen m := by simp [bitLen, hm]
-
-theorem bitLen_le_of_lt (m n : Nat) (h : m < 2 ^ n) : bitLen m ≤ n := by
-  by_cases hm : m = 0
-  · simp [bitLen, hm]
-  · have h1 := (bitLen_bounds m hm).1
-    apply Classical.byContradiction
-    intro hc
-    have : 2 ^ n ≤ 2 ^ (bitLen m - 1) := Nat.pow_le_pow_right (by omega) (by omega)
-    omega
-
-/-- `rneShift m s` is `m / 2^s` rounded to nearest (within half a unit), ties to even -/
-theorem rneShift_spec (m s : Nat) :
-    2 * (rneShift m s * 2 ^ s) ≤ 2 * m + 2 ^ s ∧ 2 * m ≤ 2 * (rneShift m s * 2 ^ s) + 2 ^ s ∧
-    ((2 * (rneShift m s * 2 ^ s) = 2 * m + 2 ^ s ∨ 2 * m = 2 * (rneShift m s * 2 ^ s) + 2 ^ s) →
-      rneShift m s % 2 = 0) := by
-  generalize hG : 2 ^ s = G
-  have hpos : 0 < G := by rw [← hG]; exact Nat.pos_of_ne_zero (by simp)
-  have hdm := Nat.div_add_mod m G
-  have hlt := Nat.mod_lt m hpos
-  unfold rneShift
-  simp only [hG]
-  split
-  · rename_i h
-    rw [Nat.add_mul, Nat.mul_comm (m / G) G]
-    refine ⟨by omega, by omega, ?_⟩
-    intro _
-    omega
-  · rename_i h
-    rw [Nat.mul_comm (m / G) G]
-    refine ⟨by omega, by omega, ?_⟩
-    intro _
-    omega
-
-theorem rneShift_le (m s : Nat) : rneShift m s ≤ m / 2 ^ s + 1 := by
-  unfold rneShift; simp only []; split <;> omega
-
-
-/-- the significand and exponent `intToFl` produces (no overflow for 64-bit integers) -/
-def intMant (f : Fmt) (m : Nat) : Nat :=
-  if bitLen m ≤ f.mbits + 1 then m * 2 ^ (f.mbits + 1 - bitLen m)
-  else rneShift m (bitLen m - (f.mbits + 1))
-
-theorem intMant_le (f : Fmt) (m : Nat) (hm : m ≠ 0) : intMant f m ≤ 2 ^ (f.mbits + 1) := by
-  have hb := bitLen_bounds m hm
-  unfold intMant
-  split
-  · rename_i h
-    have : m * 2 ^ (f.mbits + 1 - bitLen m) < 2 ^ bitLen m * 2 ^ (f.mbits + 1 - bitLen m) :=
-      Nat.mul_lt_mul_of_pos_right hb.2 (Nat.pos_of_ne_zero (by simp))
-    rw [← Nat.pow_add] at this
-    have e : bitLen m + (f.mbits + 1 - bitLen m) = f.mbits + 1 := by omega
-    rw [e] at this
-    omega
-  · rename_i h
-    have h1 := rneShift_le m (bitLen m - (f.mbits + 1))
-    have : m / 2 ^ (bitLen m - (f.mbits + 1)) < 2 ^ (f.mbits + 1) := by
-      rw [Nat.div_lt_iff_lt_mul (Nat.pos_of_ne_zero (by simp)), ← Nat.pow_add]
-      have e : f.mbits + 1 + (bitLen m - (f.mbits + 1)) = bitLen m := by omega
-      rw [e]; exact hb.2
-    omega
-
-theorem roundFmt_int (f : Fmt) (hf : f = fmt32 ∨ f = fmt64) (neg : Bool) (m : Nat) (hm : m ≠ 0)
-    (hlt : m < 2 ^ 64) :
-    roundFmt f neg m 0 = .fin neg (intMant f m) ((bitLen m : Int) - (f.mbits + 1 : Nat)) := by
-  have hL := bitLen_le_of_lt m 64 hlt
-  have hL1 := bitLen_pos m hm
-  have hM := intMant_le f m hm
-  have hMb : bitLen (intMant f m) ≤ f.mbits + 2 := by
-    apply bitLen_le_of_lt
-    have : 2 ^ (f.mbits + 1) < 2 ^ (f.mbits + 2) := Nat.pow_lt_pow_right (by omega) (by omega)
-    omega
-  have hq : f.qmin ≤ -((f.mbits : Int) + 1) ∧ (f.mbits : Int) + 66 ≤ f.bias + 1 + (f.mbits + 1) := by
-    rcases hf with rfl | rfl <;> decide
-  unfold roundFmt
-  simp only [hm, if_false]
-  have hqv : max (0 + (bitLen m : Int) - ((f.mbits : Int) + 1)) f.qmin
-      = (bitLen m : Int) - (f.mbits + 1 : Nat) := by
-    have := hq.1
-    omega
-  rw [hqv]
-  have hmant : (if (bitLen m : Int) - (f.mbits + 1 : Nat) ≤ 0
-        then m * 2 ^ (0 - ((bitLen m : Int) - (f.mbits + 1 : Nat))).toNat
-        else rneShift m ((bitLen m : Int) - (f.mbits + 1 : Nat) - 0).toNat) = intMant f m := by
-    unfold intMant
-    by_cases h : bitLen m ≤ f.mbits + 1
-    · have h' : (bitLen m : Int) - (f.mbits + 1 : Nat) ≤ 0 := by omega
-      rw [if_pos h', if_pos h]
-      congr 2
-      omega
-    · have h' : ¬ (bitLen m : Int) - (f.mbits + 1 : Nat) ≤ 0 := by omega
-      rw [if_neg h', if_neg h]
-      congr 1
-      omega
-  rw [hmant]
-  have hov : ¬ ((bitLen m : Int) - (f.mbits + 1 : Nat) + (bitLen (intMant f m) : Int) > f.bias + 1) := by
-    have := hq.2
-    omega
-  rw [if_neg hov]
 
 
 theorem natAbs_lt_of_inRange (s : NT) (x : Int) (hx : inRange s x) : x.natAbs < 2 ^ 64 := by
@@ -481,6 +255,42 @@ theorem convert_int_to_float (s d : NT) (x : Int) (r : Val) (hs : s.isInt = true
         unfold intMant; rw [if_neg (by omega)]
       rw [hmant]
       exact rneShift_spec _ _
+
+
+/-- **Implicit integer → Float/Double gives a representable value nearest to the integer** (the case
+where rounding happens, `|x|` has more than `P` = 24/53 significant bits): the result is
+`±mant·2^q` with `q = L − P`, and every competitor with at most `P` significant bits — integer valued
+(`m'·2^e'`) or with a fractional part (`m'/2^k`, distances scaled by `2^k`) — is at least as far from
+`|x|`.  Competitors of the opposite sign are farther still.  Together with the exact case of
+`convert_int_to_float` this is "nearest representable" of the property text. -/
+theorem convert_int_to_float_nearest (s d : NT) (x : Int) (r : Val) (hs : s.isInt = true)
+    (hd : d.isFloat = true) (hx : inRange s x) (h : convert s d (.int x) = some r)
+    (hL : (fmtOf d).mbits + 1 < bitLen x.natAbs) :
+    ∃ mant : Nat,
+      r = .flt (.fin (decide (x < 0)) mant ((bitLen x.natAbs - ((fmtOf d).mbits + 1) : Nat) : Int)) ∧
+      (∀ m' e' : Nat, m' < 2 ^ ((fmtOf d).mbits + 1) →
+        dist (mant * 2 ^ (bitLen x.natAbs - ((fmtOf d).mbits + 1))) x.natAbs ≤ dist (m' * 2 ^ e') x.natAbs) ∧
+      (∀ m' k : Nat, m' < 2 ^ ((fmtOf d).mbits + 1) →
+        m' ≤ x.natAbs * 2 ^ k ∧
+        dist (mant * 2 ^ (bitLen x.natAbs - ((fmtOf d).mbits + 1))) x.natAbs * 2 ^ k ≤ x.natAbs * 2 ^ k - m') := by
+  obtain ⟨mant, q, hr, -, hbig⟩ := convert_int_to_float s d x r hs hd hx h
+  obtain ⟨hq, hlo, -, -, h1, h2, -⟩ := hbig hL
+  have hqn : q.toNat = bitLen x.natAbs - ((fmtOf d).mbits + 1) := by omega
+  rw [hqn] at h1 h2
+  refine ⟨mant, ?_, ?_, ?_⟩
+  · rw [hr, hq]
+    congr 2
+    omega
+  · intro m' e' hm'
+    exact nearest_of_halfstep _ _ _ _ hL (by omega) hlo h1 h2 m' e' hm'
+  · intro m' k hm'
+    exact nearest_of_halfstep_frac _ _ _ _ hL (by omega) hlo h1 h2 m' k hm'
+
+-- 2^53 + 1 → 2^53: the competitor 2^53 + 2 = (2^52 + 1)·2 is exactly as far, nothing is nearer
+example : convert .int64 .double (.int 9007199254740993) = some (.flt (.fin false 4503599627370496 1)) ∧
+    dist (4503599627370496 * 2 ^ 1) 9007199254740993 = 1 ∧
+    dist (4503599627370497 * 2 ^ 1) 9007199254740993 = 1 := by decide
+
 
 /-- float sources: the only implicit conversions are the identity and `Float → Double`, and both
 return the very same number (`Fl` carries the exact value) -/
